@@ -77,8 +77,8 @@ def run(tier, replay):
                 continue
             ln = t[2]
             i0 = max(s for s in starts if s <= ln - 1)
-            rl = [json.dumps({k: v for k, v in r.items() if k not in ("st", "res", "now", "skew")}) for r in recs[i0:ln] if "m" not in r]
-            if "m" in recs[ln - 1]:
+            rl = [json.dumps({k: v for k, v in r.items() if k not in ("st", "res", "now", "skew")}) for r in recs[i0:ln] if "mx" not in r]
+            if "mx" in recs[ln - 1]:
                 rl.append(json.dumps({"op": "mesh"}))
             R.violation(t[3], f"{t[3]} at line {ln}: a session revoked on one replica is still live on another at quiescence", rl)
     R.coverage = {
